@@ -946,6 +946,7 @@ func c19RoundTrip(rec *vlib.Rec, w *gen.C19Watch, r *rand.Rand, idx int) {
 	if why := c19EqBody(g.msg.Body, m2.Body); why != "" {
 		rec.Violation("c19:mrt:rt:not-equal:"+class, "parsing "+what+" does not give back the record ("+why+")",
 			map[string]any{"case": idx, "record": g.name, "differs_in": why, "built": fmt.Sprint(g.msg.Body), "parsed": fmt.Sprint(m2.Body), "bytes": gen.C19Hex(src)})
+		return // (re-serialising an unequal record would repeat the same defect under another key)
 	}
 	if !wireOK {
 		return
